@@ -10,7 +10,10 @@ The expected values never come from TaxonomyTree.
 """
 import copy
 import json
+import os
 import random
+import subprocess
+import sys
 import warnings
 
 import hypothesis.strategies as st
@@ -21,13 +24,15 @@ from pbt.core import Case, Violation, sandbox
 ID = 'C10'
 LEVEL = 'exploration'
 TECHNIQUE = ('bounded-exhaustive enumeration of tree shapes plus property-based testing (Hypothesis) of TaxonomyTree '
-             'against an independent tree algebra; exhaustive one-edit malformed variants of every generated tree')
-RULE = ('cases = every uniform-depth shape with <=4 levels and <=6 leaves x 2 namings (kind=tree), one label table per '
-        'shape, and Hypothesis-drawn trees with <=5 levels / <=25 leaves and label tables; for a tree case the tree, its '
-        'flatten, every sequence of drop_level calls (all orders; <=2 deep beyond 4 levels), flatten after drop and the '
-        'JSON round trip of each are compared with the model, and every one-edit malformed variant must be rejected; '
-        'non-trivial = (tree case with >=2 levels and >=2 leaves) or (label table with >=2 levels that is a tree with '
-        '>=2 leaves, or is not a tree); distinct = distinct spec hash')
+             'against an independent tree algebra; exhaustive one-edit malformed variants of every generated tree; '
+             'thorough tier adds a coverage-guided (atheris) campaign over the same strategy and oracle')
+RULE = ('cases = every uniform-depth shape with <=4 levels and <=6 leaves x 2 namings (kind=tree), per shape one label '
+        'table and (>=2 levels) one label table with one cell re-labelled, and Hypothesis-drawn trees with <=5 levels / '
+        '<=25 leaves and label tables (a third with one cell re-labelled); for a tree case the tree, its flatten, every '
+        'sequence of drop_level calls (all orders; <=2 deep beyond 4 levels), flatten after each, and the JSON round trip '
+        'of each are compared with the model, and every one-edit malformed variant must be rejected (thinned to 1500 per '
+        'random tree); non-trivial = (tree case with >=2 levels and >=2 leaves) or (label table with >=2 levels that is '
+        'a tree with >=2 leaves, or is not a tree); distinct = distinct spec hash')
 ASSUMPTIONS = ['every non-leaf node has >=1 child and child lists are duplicate-free (documented input domain); '
                'a duplicate of a child inside the same list and a childless top-level node are not generated',
                'order of children / nodes / pairs in returned lists is not compared; inside one pair the two leaves are '
@@ -41,7 +46,7 @@ MAX_VARIANTS = {'enum': None, 'random': 1500}
 
 
 def budget(tier):
-    return {'quick': 1600, 'thorough': 40000}[tier]
+    return {'quick': 1280, 'thorough': 40000}[tier]
 
 
 # ---------------------------------------------------------------------------------------------------- generators
@@ -695,3 +700,151 @@ def _check_h5ad(spec, h, records, want, is_tree, stats):
     compare(tt, want, ctx, stats)
     transformations(tt, want, ctx, stats, min(len(h) - 1, 1))
     stats['h5ad_trees'] = 1
+
+
+# ---------------------------------------------------------------------------------------------------- atheris
+# Thorough tier only: a coverage-guided campaign (atheris/libFuzzer) drives the SAME Hypothesis strategy and the SAME
+# check through `fuzz_one_input`. atheris lives in a separate interpreter that lacks h5py/anndata/pandas/scipy; the
+# taxonomy code does not use them on the paths exercised here, so inert stand-ins are put on the import path of that
+# interpreter only (the h5ad route is switched off there). A violation found is an ordinary spec: it is replayed and
+# reported by the normal interpreter.
+ATHERIS_PY = os.environ.get('VERIF_ATHERIS_PY', '/opt/veriftools/pyvenv/bin/python')
+ATHERIS = {'procs': 4, 'runs': 5000, 'max_s': 100}
+_STUB_ROOTS = ('h5py', 'anndata', 'pandas', 'scipy')
+
+
+def run_stateful(tier, seed, shard, n_shards, out):
+    if tier != 'thorough' or shard >= ATHERIS['procs']:
+        return
+    info = out['info']
+    if not os.path.exists(ATHERIS_PY):
+        info['atheris_unavailable'] = info.get('atheris_unavailable', 0) + 1
+        return
+    from pbt.core import derive_seed
+    with sandbox() as d:
+        res = d / 'result.json'
+        cmd = [ATHERIS_PY, '-m', 'pbt.props.c10', '--atheris', str(res),
+               str(derive_seed(seed, shard) % (2 ** 31 - 1) + 1), str(ATHERIS['runs']), str(ATHERIS['max_s'])]
+        try:
+            p = subprocess.run(cmd, cwd=str(d), stdout=subprocess.PIPE, stderr=subprocess.STDOUT,
+                               timeout=ATHERIS['max_s'] * 4 + 120)
+            rc, log = p.returncode, p.stdout.decode('utf-8', 'replace')
+        except subprocess.TimeoutExpired as e:
+            rc, log = -1, (e.stdout or b'').decode('utf-8', 'replace') + '\n(timeout)'
+        r = json.loads(res.read_text()) if res.exists() else None
+    if r is None:
+        raise RuntimeError(f'atheris campaign produced no result (rc={rc}): {log[-1500:]}')
+    out['evaluations'] += r['execs']
+    info['atheris_execs'] = info.get('atheris_execs', 0) + r['execs']
+    info['atheris_campaigns'] = info.get('atheris_campaigns', 0) + 1
+    for c, n in r['classes'].items():
+        out['classes']['atheris:' + c] = out['classes'].get('atheris:' + c, 0) + n
+    out['nontrivial'] += r['nontrivial']
+    if r.get('violation'):
+        v = r['violation']
+        # confirm with the ordinary interpreter (all real dependencies present) before reporting
+        try:
+            check(v['spec'])
+        except Violation as e:
+            out['violations'].append({'spec': v['spec'], 'clause': e.clause, 'detail': str(e.detail)[:2000]})
+            return
+        raise RuntimeError(f'atheris reported {v["clause"]} but the spec passes in the ordinary interpreter: '
+                           f'{json.dumps(v["spec"])[:1500]}')
+    if rc != 0:
+        raise RuntimeError(f'atheris campaign failed (rc={rc}): {log[-1500:]}')
+
+
+def _install_stubs():
+    import importlib.abc
+    import importlib.machinery
+    import types
+
+    class _Anything(object):
+        def __init__(self, name):
+            self._n = name
+
+        def __call__(self, *a, **k):
+            raise RuntimeError('stand-in dependency called: ' + self._n)
+
+        def __getattr__(self, k):
+            if k.startswith('__'):
+                raise AttributeError(k)
+            return _Anything(self._n + '.' + k)
+
+        def __mro_entries__(self, bases):
+            return (object,)
+
+    class _Stub(types.ModuleType):
+        __path__ = []
+
+        def __getattr__(self, k):
+            if k.startswith('__'):
+                raise AttributeError(k)
+            return _Anything(self.__name__ + '.' + k)
+
+    class _Finder(importlib.abc.MetaPathFinder, importlib.abc.Loader):
+        def find_spec(self, name, path, target=None):
+            if name.split('.')[0] in _STUB_ROOTS:
+                return importlib.machinery.ModuleSpec(name, self, is_package=True)
+            return None
+
+        def create_module(self, spec):
+            return _Stub(spec.name)
+
+        def exec_module(self, module):
+            pass
+
+    sys.meta_path.insert(0, _Finder())
+
+
+def _atheris_main(argv):
+    res_path, seed, runs, max_s = argv[0], int(argv[1]), int(argv[2]), int(argv[3])
+    import atheris
+    from hypothesis import given, settings, HealthCheck
+    from pbt.core import spec_hash
+    _install_stubs()
+    with atheris.instrument_imports(include=['cell_type_mapper.taxonomy']):
+        import cell_type_mapper.taxonomy.utils  # noqa
+        import cell_type_mapper.taxonomy.taxonomy_tree  # noqa
+    state = {'execs': 0, 'classes': {}, 'nontrivial': [], 'violation': None}
+
+    def flush():
+        tmp = res_path + '.tmp'
+        with open(tmp, 'w') as f:
+            json.dump(state, f)
+        os.replace(tmp, res_path)
+
+    @settings(database=None, deadline=None, suppress_health_check=list(HealthCheck))
+    @given(st.one_of(tree_cases(max_levels=4, max_leaves=8), tree_cases(max_levels=5, max_leaves=12), label_cases()))
+    def test(spec):
+        if spec['kind'] == 'labels':
+            spec['h5ad'] = False
+        state['execs'] += 1
+        try:
+            case = check(spec)
+        except Violation as v:
+            state['violation'] = {'spec': spec, 'clause': v.clause, 'detail': str(v.detail)[:2000]}
+            flush()
+            raise
+        for c in case.classes:
+            state['classes'][c] = state['classes'].get(c, 0) + 1
+        if case.nontrivial and len(state['nontrivial']) < 20000:
+            state['nontrivial'].append(spec_hash(spec))
+        if state['execs'] % 50 == 0:
+            flush()
+
+    flush()
+    atheris.Setup([sys.argv[0], f'-runs={runs}', f'-seed={seed}', f'-max_total_time={max_s}', '-max_len=8192', '-len_control=0',
+                   '-timeout=120', '-rss_limit_mb=4096', '-print_final_stats=1'],
+                  test.hypothesis.fuzz_one_input)
+    import atexit
+    atexit.register(flush)
+    try:
+        atheris.Fuzz()
+    finally:
+        flush()
+
+
+if __name__ == '__main__':
+    if len(sys.argv) > 1 and sys.argv[1] == '--atheris':
+        _atheris_main(sys.argv[2:])
